@@ -25,7 +25,7 @@ from __future__ import annotations
 import ast
 
 from ..loader import norm, own_nodes, AnalysisError
-from ..stepsem import Machine, Unknown
+from ..stepsem import Machine, Unknown, UnboundRead
 
 PROP = 'C10'
 CONTROL = 'c10'
@@ -396,6 +396,11 @@ def _apply(rep, fn, kind):
         n = check_transducer(fn.node, kind, streams, cfg, attrs)
     except _Bad as b:
         rep.violated('R10.1', fn, '%s: %s' % (kind, b.construct), b.message, b.node or fn.node)
+        return 0
+    except UnboundRead as e:
+        rep.violated('R10.1', fn, '%s: %s' % (kind, e.name),
+                     'on a reachable path of the run detector (some next() exhausted / a loop with no pass) %s: the '
+                     'iteration dies with UnboundLocalError instead of delivering the rows the key counts force' % e, e.node)
         return 0
     except Unknown as e:
         rep.undecided('R10.1', fn, '%s transducer' % kind, 'the loop is outside the modelled family: %s' % e, fn.node)
